@@ -357,7 +357,16 @@ def run_C05(ctx):
     extra_C05(ctx)
 
 
+def crash_only(f):
+    r = f["reason"]
+    return "panic" in r or "child signal" in r or "child timeout" in r or "child exit" in r
+
+
 def extra_C05(ctx):
+    # the case families of the other properties, replayed for crash-freedom only (long programs,
+    # extreme operands, deep and backward calls): a wrong value is C01's business, a panic is C05's
+    recs = exec_cases(ctx, "crash", ["alu", "jmp", "far", "farcall", "calls", "mem", "bounds", "helpers"], 48 if ctx.quick else 2, timeout=1500)
+    replay_exec(ctx, "crash", recs, ["interp"], claim=crash_only)
     # direction A: arbitrary accepted programs under an instruction budget, every step validated
     trace_interp(ctx, "arbitrary", 400 if ctx.quick else 20000, mode="arbitrary")
 
